@@ -5,6 +5,7 @@
 
     ttlp.doc <pkg:turtle|trig> <base:x<hex>|-> <doc> <choices>
         →  <wf:0|1><flat:0|1><chok:0|1><nobool:0|1>|<printed:x<hex>>|<denote>|<run stmts>|<verdict>
+           (wf = `docWf`, chok = no slot has glue, nobool = `docNoBoolPfx`: the hypotheses of `C08.decode_print_partial`)
            denote = none  |  s,p,o,g;…      (statements as in `ttld.dec`, blank nodes renumbered by
            first occurrence on both sides);   run = `TtlDoc.run` of the printed text
 
@@ -171,7 +172,7 @@ def docOf (s : String) : Option Doc :=
   if s = "-" then some []
   else
     let toks := s.splitOn ","
-    parseDoc (toks.length + 1) (toks.length + 1) toks
+    parseDoc (2 * toks.length + 8) (toks.length + 1) toks
 
 /-! choices -/
 
